@@ -708,7 +708,7 @@ class Bf3File:
             if is_file_path:
                 bf2fileobj.close()
         for instr, params in bf2_objs:
-            if instr == "load":
+            if instr == "load" and isinstance(params, list):
                 fwtagtype = params[0].fwtagtype
                 if not is_known_tagtype(fwtagtype):
                     raise Bf3FileFormatError(
